@@ -1188,6 +1188,12 @@ class MyPyAstVisitor:
                 f"Expected parent for {name} in module {self.mypy_file.fullname} to be a class or a module.",
             )  # pragma: no cover
 
+        if isinstance(parent, Function):
+            # Instance attributes are defined in the constructor, they are as public as the attributes of its class
+            grand_parent = self.__declaration_stack[-2]
+            if isinstance(grand_parent, Class):
+                parent = grand_parent
+
         if not isinstance(parent, Function):
             _check_publicity_with_reexports: bool | None = self._check_publicity_in_reexports(name, qname, parent)
 
